@@ -587,3 +587,57 @@ package adt
 //@   loop 2 invariant forall k int :: 0 <= k && k < len(n.disjuncts) ==> n.disjuncts[k] != nil && n.disjuncts[k].node != nil && n.disjuncts[k].origPriority == n.disjuncts[0].origPriority && n.disjuncts[k].defaultMode <= notDefault
 //@   effect (*adt.nodeContext).setBaseValue#0 requires isType(arg1, *Disjunction) && wfDisj(arg1.(*Disjunction)) && forall k int :: 0 <= k && k < len(arg1.(*Disjunction).Values) ==> arg1.(*Disjunction).Values[k] != nil
 //@   assigns heap
+
+// ---- C04: eliminating a duplicate disjunct never loses or invents a default mark ----
+//@ func (*Vertex).DerefValue
+//@   assumed A-int: follows shared-value indirections; read-only
+//@   assigns nothing
+//@   ensures result != nil
+//@ func isCyclePlaceholder
+//@   assumed A-int: type test
+//@   assigns nothing
+//@ func (*nodeContext).getValidators
+//@   assumed A-int: builds a value from the checks of the node; allocates only
+//@   assigns nothing
+//@ func equalPartialNode
+//@   assumed A-int: read-only comparison of two unfinished nodes
+//@   assigns nothing
+//@ func Equal
+//@   assumed A-int: read-only structural comparison
+//@   assigns nothing
+//@ func mergeCloseInfo
+//@   assumed A-int: merges conjunct infos and replaceIDs of nw into nv, recursively over arcs; it never writes a defaultMode
+//@   assigns heap except allelems(*nodeContext) + all nodeContextState.defaultMode
+//@ func (*nodeContext).freeDisjunct
+//@   assumed A-int: returns the buffers of the dropped disjunct's own vertex tree; that tree shares no nodeContext with the kept disjuncts
+//@   assigns heap except allelems(*nodeContext)
+//@   ensures forall m *nodeContext :: {m.defaultMode} m != n ==> m.defaultMode == old(m.defaultMode)
+
+// (P) C04: a default mark on the dropped duplicate is transferred to the disjunct
+// that is kept; the marks of the other disjuncts are untouched; nothing is dropped
+// other than x itself.
+//@ func appendDisjunct
+//@   may_panic
+//@   requires forall k int :: 0 <= k && k < len(a) ==> a[k] != nil && a[k].node != nil
+//@   requires x != nil ==> x.node != nil
+//@   loop 0 invariant -1 <= rangeindex && rangeindex < len(a)
+//@   loop 0 invariant forall m *nodeContext :: {m.defaultMode} m.defaultMode == old(m.defaultMode)
+//@   ensures [prefix] len(result) >= len(a) && len(result) <= len(a) + 1 && forall k int :: 0 <= k && k < len(a) ==> result[k] == old(a[k])
+//@   ensures [grow] len(result) == len(a) + 1 ==> result[len(a)] == x && x.defaultMode == old(x.defaultMode)
+//@   ensures [keepmark] x != nil && old(x.defaultMode) == isDefault ==> exists k int :: 0 <= k && k < len(result) && result[k].defaultMode == isDefault
+//@   ensures [nodowngrade] forall k int :: 0 <= k && k < len(a) && old(a[k]) != x && old(a[k].defaultMode) == isDefault ==> result[k].defaultMode == isDefault
+//@   ensures [noinvent] forall k int :: 0 <= k && k < len(a) && old(a[k]) != x && result[k].defaultMode != old(a[k].defaultMode) ==> x != nil && old(x.defaultMode) == isDefault && result[k].defaultMode == isDefault
+//@   assigns heap
+
+// (P) C04: two bounds are duplicates only if they have the same operator; two
+// basic types only if they have the same kind
+//@ func binOpBoolAny
+//@   assumed A-int: BinOpBool on arbitrary operands; no claim about the result
+//@   assigns heap
+//@ func equalTerminal
+//@   may_panic
+//@   callsite adt.BinOpBool#0 contract binOpBoolAny
+//@   ensures [boundop] result && isType(v, *BoundValue) && isType(w, *BoundValue) ==> v.(*BoundValue).Op == w.(*BoundValue).Op
+//@   ensures [basickind] result && isType(v, *BasicType) && isType(w, *BasicType) ==> v.(*BasicType).K == w.(*BasicType).K
+//@   ensures [sameclass] result && v != w ==> tagOf(v) == tagOf(w) || isType(v, *Num) || isType(v, *String) || isType(v, *Bool) || isType(v, *Bytes) || isType(v, *Null)
+//@   assigns heap
